@@ -80,7 +80,15 @@ fn payload(rng: &mut Rng, idx: usize, n: usize) -> Vec<u8> {
 
 /// real encoder through FramedWrite over a chunking pipe; returns the wire bytes
 fn real_encode(msgs: &[Vec<u8>], l: usize, rng: &mut Rng) -> Result<Vec<u8>, String> {
-    let (a, _b, a2b, _) = pipe::pipe(pipe::Sched::random(rng), pipe::Sched::smooth());
+    let mut sched = pipe::Sched::random(rng);
+    let total: usize = msgs.iter().map(|m| m.len()).sum();
+    if total > 50_000 {
+        // byte-wise writes of a megabyte only burn time; keep partial writes, but coarse
+        sched.max_write = sched.max_write.max(4096);
+        sched.pend_write = sched.pend_write.min(20);
+        sched.pend_flush = sched.pend_flush.min(20);
+    }
+    let (a, _b, a2b, _) = pipe::pipe(sched, pipe::Sched::smooth());
     let mut fw = FramedWrite::new(a, Cdc::new(l));
     for m in msgs {
         let r = block_on_timeout(fw.send(Message { data: m.clone() }), Duration::from_secs(20));
